@@ -257,6 +257,9 @@ def emit_version(v, ns, go_rows, b):
     b.append(",\n".join("  ⟨%s, %s, %d, %d, %s, %s⟩" % (lean_str(r["struct"]), lean_str(r["path"]), r["off"], r["size"],
                                                       lean_str(r["mode"]), lean_str(r["go"])) for r in go_rows))
     b.append("]\n")
+    ms = [r["size"] for r in go_rows if r["mode"] == "mirror-size"]
+    if ms:
+        b.append("/-- `unsafe.Sizeof(state.State{})`: the Go mirror of `struct cali_tc_state`. -/\ndef stateMirrorSize : Nat := %d\n" % ms[0])
     b.append("/-- Every offset/size the Go code uses equals the C layout (finite table, `decide`). -/")
     b.append("theorem go_matches_c : goRows.all (rowOk structs) = true := by decide +kernel\n")
     b.append("end %s\n" % ns)
@@ -338,6 +341,11 @@ def main():
     emit_version(v6, "CalicoVerif.C13.Gen.V6", [r for r in rows if r["ver"] == "6"] + pp6, b)
     os.makedirs(os.path.dirname(OUT), exist_ok=True)
     open(OUT, "w").write("\n".join(b))
+    # sizeof of every root record as clang computes it: read by the harness oracle (the Go side has
+    # no other way to know a C size)
+    sizes = {"4": {r: v4.dump["struct " + r][1] for r in ROOTS}, "6": {r: v6.dump["struct " + r][1] for r in ROOTS}}
+    os.makedirs(os.path.join(ROOT, ".build"), exist_ok=True)
+    json.dump(sizes, open(os.path.join(ROOT, ".build", "c13-csizes.json"), "w"))
 
 
 if __name__ == "__main__":
